@@ -14,6 +14,7 @@ type VGhost struct {
 	C6, C7   []uint8
 	C8, C9   []uint8
 	OSFailed bool
+	Trunc    bool // the output file was created empty (os.Create, or os.OpenFile with O_TRUNC)
 }
 
 func vsForallIdx(f func(i int) bool) bool {
@@ -40,6 +41,6 @@ func vsFits(in []uint8, off uint) bool {
 
 // vsBinContainer: 0xFE, start, end = start+length-1, exec = start, image.
 func vsBinContainer(g *VGhost, off uint16) bool {
-	return g.NC == 5 && vsIsByte(g.C0, 0xfe) && vsIsU16(g.C1, off) && vsIsU16(g.C2, off+uint16(len(g.In))-1) &&
+	return g.Trunc && g.NC == 5 && vsIsByte(g.C0, 0xfe) && vsIsU16(g.C1, off) && vsIsU16(g.C2, off+uint16(len(g.In))-1) &&
 		vsIsU16(g.C3, off) && vsSame(g.C4, g.In)
 }
